@@ -214,6 +214,64 @@ def run_sequence(res, blockwise, v0, items, seedchar=b"n"):
         w.dispose()
 
 
+def two_observations(res, blockwise, third_request):
+    """A transport error reported for the server ends *every* observation towards it, each exactly once."""
+    w = World()
+    try:
+        cli = w.add_context("cli", *CLI)
+        srv = w.add_peer(Notifier("srv", *SRV))
+        obs = []
+        for i in range(2):
+            m = Message(code=GET, uri_path=["obs%d" % i], observe=0)
+            m.remote = cli.remote(SRV)
+            r = cli.ctx.request(m, handle_blockwise=blockwise)
+            ebs, cbs = [], []
+            r.observation.register_errback(lambda e, ebs=ebs: ebs.append(e))
+            r.observation.register_callback(lambda x, cbs=cbs: cbs.append(bytes(x.payload)))
+            obs.append((r, ebs, cbs))
+        w.loop.settle()
+        answered = set()
+        for _ in range(6):     # the second registration waits for the first one's ACK (NSTART)
+            while w.pool:
+                w.deliver(w.pool[0])
+            for (src, msg) in list(srv.requests):
+                if msg[2] not in answered:
+                    answered.add(msg[2])
+                    srv.send(src, (rc.ACK, 69, msg[2], msg[3], [(6, b"\x01")], b"first"))
+        while w.pool:
+            w.deliver(w.pool[0])
+        if third_request:
+            m = Message(code=GET, uri_path=["plain"])
+            m.remote = cli.remote(SRV)
+            extra = cli.ctx.request(m, handle_blockwise=False)
+            w.loop.settle()
+            w.pool.clear()
+        cli.receive_error(SRV, errno.ECONNREFUSED)
+        w.loop.settle()
+        case = {"family": "two-observations", "blockwise": blockwise, "third": third_request}
+        res.evaluations += 1
+        res.traces += 1
+        for i, (r, ebs, cbs) in enumerate(obs):
+            if len(ebs) != 1 or not isinstance(ebs[0], error.NetworkError):
+                res.violate(Violation("termination-signal", ["network"], [type(e).__name__ for e in ebs], "tokenmanager.py:dispatch_error", case,
+                                      key="two-obs-%d-%s" % (i, "none" if not ebs else "other")))
+        # later notifications on the retired tokens are rejected like unknown responses
+        n_rst = len(srv.rsts)
+        for (src, msg) in list(srv.requests)[:2]:
+            srv.send(src, (rc.CON, 69, srv.mid(), msg[3], [(6, b"\x02")], b"late"))
+        while w.pool:
+            w.deliver(w.pool[0])
+        if len(srv.rsts) - n_rst != 2 or any(b"late" in cbs for (_, _, cbs) in obs):
+            res.violate(Violation("notification-after-end", "RST for each, nothing delivered", {"rsts": len(srv.rsts) - n_rst},
+                                  "tokenmanager.py:process_response", case, key="two-obs-late"))
+        res.outcomes.add(("two-obs", blockwise, third_request))
+        res.signatures.add(("two-obs", blockwise, third_request))
+        res.states.add(core.digest(("two-obs", blockwise, third_request)))
+        res.transitions += 4
+    finally:
+        w.dispose()
+
+
 def alphabet(tier, full):
     if full:
         return [("n", dv, dt, con) for dv in DV for dt in DT for con in (True, False)]
@@ -264,6 +322,8 @@ def job(arg):
             # transport error before the first response
             run_sequence(res, bw, 5, (("icmp0",),))
             run_sequence(res, bw, 5, (("icmp0",), small[0]))
+            two_observations(res, bw, False)
+            two_observations(res, bw, True)
         res.sample({"v0": 5, "items": [list(small[0]), ["fin", 132, True], list(small[1])]})
     return res
 
